@@ -56,7 +56,7 @@ def interesting(b):
     return 0 in vals or 1 in vals or len(set(vals)) < len(vals)
 
 
-def check(model, gm, o, combos, seed):
+def check(model, gm, o, combos, seed, fixed_feeds=None):
     verdicts, info = [], {"bindings": 0, "compared": 0, "widened": 0, "source_rejects": 0, "split": 0, "interesting_compared": 0}
     r = optcommon.apply_api(model, o)
     if r[0] == "raise":
@@ -70,7 +70,7 @@ def check(model, gm, o, combos, seed):
 
     dk = diff_key(model, new)
     for i, b in enumerate(combos):
-        feeds = gm.feeds_for_binding(b, seed + i)
+        feeds = fixed_feeds[i] if fixed_feeds else gm.feeds_for_binding(b, seed + i)
         info["bindings"] += 1
         v, d = compare.decide(src, newsrc, [feeds])
         if v == "skip_source_fails":
@@ -86,7 +86,7 @@ def check(model, gm, o, combos, seed):
         elif v.startswith("violation"):
             single = ":single-runtime" if ("ref: None" in d or "ort: None" in d) else ""
             cls = "zero" if 0 in b.values() else "one" if 1 in b.values() else "equal" if len(set(b.values())) < len(b) else "generic"
-            verdicts.append((f"{v}:{dk}:binding_has_{cls}{single}", f"binding {_b(b)}: {d}", b))
+            verdicts.append((f"{v}:{dk}:binding_has_{cls}{single}", f"binding {_b(b)}: {d}", b, feeds))
             if len(verdicts) >= 3:
                 break
         elif v == "inconclusive_split":
@@ -130,8 +130,9 @@ def run_shard(spec):
                 col.nontrivial.add(f"{mh}:{i}")
         for k in ("compared", "widened", "source_rejects", "split", "interesting_compared", "bindings"):
             col.extra[k] = col.extra.get(k, 0) + info[k]
-        for bucket, detail, b in verdicts:
+        for bucket, detail, b, vfeeds in verdicts:
             col.violation(bucket, detail, {"model": optcommon.model_to_json(gm.model), "opts": o, "binding": [[list(k) if isinstance(k, tuple) else k, v] for k, v in b.items()],
+                                           "feeds": [optcommon.feeds_to_json(vfeeds)],
                                            "declared": gm.declared, "input_specs": gm.input_specs, "seed": seed, "text": modelgen.model_text(gm.model, 3000)}, size=gm.n_nodes)
 
     drive(st.tuples(optcommon.option_tuples(["optimize", "optimize", "optimize_ir", "fold_constants_si", "rewrite"]), modelgen.models(_cfg())), body, spec["n"], spec["seed"])
@@ -142,8 +143,9 @@ def replay(case):
     model = optcommon.model_from_json(case["model"])
     gm = modelgen.GenModel(model, {}, [tuple(x) for x in case["input_specs"]], [], [], 0, 0, {}, case["declared"])
     b = {(tuple(k) if isinstance(k, list) else k): v for k, v in case["binding"]}
-    verdicts, _ = check(model, gm, case["opts"], [b], case["seed"])
-    return [(x, y) for x, y, _ in verdicts]
+    fixed = [optcommon.feeds_from_json(f) for f in case["feeds"]] if case.get("feeds") else None
+    verdicts, _ = check(model, gm, case["opts"], [b], case["seed"], fixed)
+    return [(v[0], v[1]) for v in verdicts]
 
 
 from vf.known_regions import REGIONS  # noqa: E402
